@@ -669,7 +669,7 @@ pub fn seed_zero_only() -> Seed {
 }
 
 pub fn long_history_seeds() -> Vec<Seed> {
-    vec![seed_aged(11), seed_aged(26), seed_hoarder(40), seed_hoarder(130)]
+    vec![seed_aged(11), seed_aged(26), seed_hoarder(40), seed_hoarder(130), seed_hoarder(300)]
 }
 
 pub fn sliding_window_seeds() -> Vec<Seed> {
